@@ -49,6 +49,11 @@ chk("C03",
     TRUST + "Not decided: that the matching arithmetic equals the stated demand function for every order book, ties, allocation amounts (numeric/history clauses).",
     "finite-ordering abstract evaluation of the search predicate + provenance/SSA matching of cap and supply guards", "DESIGN.md section 4 C03")
 
+chk("C08",
+    "Structural/finite-ordering conditions: (ST-TRANS) for each of the 8 entry points and each stored status value, abstract exploration finds only constant status writes that form StandBy→Started, Started→Vesting, Started→Finished, Vesting→Finished or StandBy→Cancelled (none from Finished/Cancelled; fresh auctions only StandBy/Started), and each of the five is performed somewhere; (TIME-POL) evaluating the code over every ordering of the compared instants: opening reachable exactly for StartTime ≤ BlockTime (block hook, both creations), any settlement effect exactly for last(EndTimes) ≤ BlockTime, a release transfer exactly for ReleaseTime ≤ BlockTime ∧ ¬Released, creation committed exactly for EndTime ≥ BlockTime; (OPEN-GUARD) Bid record writes by placement/modification only for stored status Started; (FINISH-LAST) Vesting→Finished only when the released instalment's index equals len-1. The boundary instants (exactly at start/end/release) are a finite set of orderings that the evaluator enumerates completely; tests sample a few block times.",
+    TRUST + "Not decided: the history-level statement about which block is first; it follows from the ≤ comparison being re-evaluated at each block.",
+    "typestate over abstract paths + ORD-EVAL (abstract interpretation over the 3 orderings of each compared pair, product for pairs) + enum evaluation", "DESIGN.md section 4 C08")
+
 PENDING = {}  # property -> reason (kept current as checks are added)
 ALL = ["C%02d" % i for i in range(1, 21)]
 for p in ALL:
